@@ -283,6 +283,9 @@ def alignment(S):
     S.extra_cov["alignment_shapes"] = n
 
 
+HEADER_VARIANTS = [dict(), dict(time=250), dict(time="1500"), dict(time="250"), dict(time="7"), dict(time=" 12.5s"), dict(shot=12345, time="1500"), dict(shot="#99", time="33"), dict(label="X", time="1500"), dict(label="ABCDEFGHIJK", shot=7, time=3), dict(label="12345678901", shot="77", time="88")]
+
+
 def header(S):
     """idum, nx, ny for every digit-length class of nx and ny (fixed-width 3i4)."""
     from hypnotoad.geqdsk import _geqdsk as G
@@ -298,21 +301,24 @@ def header(S):
                     d = dict(nx=nx, ny=ny)
                     for k in ("rdim", "zdim", "rcentr", "rleft", "zmid", "rmagx", "zmagx", "simagx", "sibdry", "bcentr", "cpasma"):
                         d[k] = 1.0
-                    f = io.StringIO()
-                    with patched((G, "write_1d", lambda v, o: None), (G, "write_2d", lambda v, o: None), (G, "print", lambda *a, **k: None)):
-                        for k in ("fpol", "pres", "qpsi", "psi"):
-                            d[k] = None
-                        G.write(d, f)
-                    hdr = f.getvalue().splitlines()[0] + "\n"
-                    n += 1
-                    # the header-parsing statements of the real read(), sliced mechanically
-                    try:
-                        got = parse_header_like_read(hdr)
-                    except Exception as e:
-                        got = repr(e)
-                    if got != (3, nx, ny):
-                        bad.append(dict(nx=nx, ny=ny, header=hdr, got=str(got)))
-    S.static_vc("header", FN_R, "header round trip idum,nx,ny for all digit-length classes 1..4 (%d headers)" % n, not bad, detail=repr(bad[:2]), kind="native-all-classes", model=bad[0] if bad else None)
+                    for k in ("fpol", "pres", "qpsi", "psi"):
+                        d[k] = None
+                    # every class of text in front of the three integers: the time entry is written
+                    # immediately before idum, so a bare number there abuts (or not) with the fields
+                    for hv in HEADER_VARIANTS:
+                        f = io.StringIO()
+                        with patched((G, "write_1d", lambda v, o: None), (G, "write_2d", lambda v, o: None), (G, "print", lambda *a, **k: None)):
+                            G.write(d, f, **hv)
+                        hdr = f.getvalue().splitlines()[0] + "\n"
+                        n += 1
+                        # the header-parsing statements of the real read(), sliced mechanically
+                        try:
+                            got = parse_header_like_read(hdr)
+                        except Exception as e:
+                            got = repr(e)
+                        if got != (3, nx, ny):
+                            bad.append(dict(nx=nx, ny=ny, variant=str(hv), header=hdr, got=str(got)))
+    S.static_vc("header", FN_R, "header round trip idum,nx,ny for all digit-length classes 1..4 of nx, ny x label/shot/time variants incl. bare numeric strings (%d headers)" % n, not bad, detail=repr(bad[:2]), kind="native-all-classes", model=bad[0] if bad else None)
 
 
 def parse_header_like_read(hdr):
